@@ -440,6 +440,22 @@ impl Default for SymbolTable {
     }
 }
 
+// Verification hooks (built only with `--cfg oq3_verif`): expose scope entry and scope depth.
+#[cfg(oq3_verif)]
+impl SymbolTable {
+    pub fn verif_enter_scope(&mut self, scope_type: ScopeType) {
+        self.enter_scope(scope_type)
+    }
+
+    pub fn verif_scope_depth(&self) -> usize {
+        self.number_of_scopes()
+    }
+
+    pub fn verif_num_symbols(&self) -> usize {
+        self.all_symbols.len()
+    }
+}
+
 use std::ops::Index;
 impl Index<&SymbolId> for SymbolTable {
     type Output = Symbol;
